@@ -138,7 +138,7 @@ def recording(d, cfg):
     data[:, :nsites] = np.clip(data[:, :nsites], -8191, 8191)
     data[:, nsites] = (np.arange(ns, dtype=np.int64) * 40503 + 12345) % 65536 - 32768
     data = data.astype(np.int16)
-    fbin = synth.write_recording(d, "ds_g0_t0.imec0.ap", data, synth.meta_items("NP2.1", sites, ns))
+    fbin = synth.write_recording(d, "ds_g0_t0.imec0.ap", data, synth.meta_items("NP2.1", sites, ns, **({"fs": cfg["fs"]} if cfg.get("fs") else {})))
     if cfg.get("cbin"):
         sr = spikeglx.Reader(fbin)
         sr.compress_file(keep_original=False)
@@ -159,6 +159,10 @@ def options(cfg):
         kw["wrot"] = 2 * np.eye(nsites)
     elif cfg.get("wrot") == "cyclic":
         kw["wrot"] = np.roll(np.eye(nsites), 1, axis=1)                     # a non-symmetric permutation
+    elif cfg.get("wrot") == "scalar":
+        kw["wrot"] = 0.5                                                    # one whitening amplitude for all channels
+    elif cfg.get("wrot") == "numpy-scalar":
+        kw["wrot"] = np.float32(2.0)
     elif cfg.get("wrot") == "triangular":
         kw["wrot"] = np.eye(nsites) + 0.5 * np.eye(nsites, k=1)             # upper bidiagonal
     if cfg.get("h_shift"):
@@ -260,7 +264,7 @@ def reference(fbin, cfg, data):
         hi = (last - first) if last == ns else N - TAPER
         vals = chunk[:, lo:hi].T / np.asarray(sr.sample2volts)[None, :ncv]
         if "wrot" in kw:
-            vals = vals @ kw["wrot"]
+            vals = vals @ kw["wrot"] if np.ndim(kw["wrot"]) else vals * float(kw["wrot"])
         full = np.concatenate([vals, data[first + lo:first + hi, ncv:].astype(np.float64)], axis=1)
         out[first + lo:first + hi, :] = full[:, :nc_out]
         nbatches += 1
@@ -293,7 +297,9 @@ def config_cases(tier, seed):
               dict(nsites=4, ns=5000, nbatch=4096, pmax=6), dict(nsites=4, ns=2560 + 700, nbatch=2560, pmax=6),
               dict(base, stale=True), dict(base, stale=True, ns2add=50, float32=True),
               dict(base, no_rms=True), dict(base, float32=True), dict(base, float32=True, ns2add=33, wrot="2I"),
-              dict(base, wrot="cyclic"), dict(base, wrot="triangular", nc_out=4),
+              dict(base, wrot="cyclic"), dict(base, wrot="triangular", nc_out=4), dict(base, wrot="scalar"), dict(base, wrot="numpy-scalar", ns2add=20),
+              # recordings at other sampling rates than the usual 30 kHz (the slew-rate criterion and the filters follow the file's rate)
+              dict(base, fs=2500), dict(base, fs=20000.5, wrot="2I"), dict(base, fs=30000.268421),
               # two runs in one process whose headers differ only by their sampling delays (same channel count and batch size)
               dict(base, h_shift="thirteenths", then=dict(base, h_shift="other")), dict(base, then=dict(base, h_shift="thirteenths")),
               # recordings not longer than one batch
